@@ -1,6 +1,7 @@
 package check
 
 import (
+	"go/ast"
 	"sort"
 	"strings"
 
@@ -82,8 +83,71 @@ func (d *PropDef) units(p *govc.Program) []Unit {
 			us = append(us, Unit{Func: m, Sweep: true}) // reported as missing by the driver
 		}
 	}
+	// every method of a type under lock invariants that takes the owning mutex is under verification
+	// (its unlocks assert the invariants), whether or not it is listed: a method added later cannot
+	// bypass the invariants of a type one of whose methods the property already verifies
+	if len(d.Funcs) > 0 {
+		typed := map[string]bool{} // "pkg.Type" of the listed methods
+		for _, f := range d.Funcs {
+			if i := strings.LastIndex(f, "."); i > 0 && strings.Count(f, ".") == 2 {
+				typed[f[:i]] = true
+			}
+		}
+		var keys []string
+		for k := range p.Funcs {
+			keys = append(keys, k)
+		}
+		sort.Strings(keys)
+		for _, k := range keys {
+			if seen[k] || strings.Count(k, ".") != 2 {
+				continue
+			}
+			tn := k[:strings.LastIndex(k, ".")]
+			ts := p.Specs.Types[tn]
+			if !typed[tn] || ts == nil || len(ts.Invs) == 0 || len(ts.Owns) == 0 {
+				continue
+			}
+			if sp := p.Specs.Funcs[k]; sp != nil && sp.Trusted {
+				continue
+			}
+			if takesOwnedLock(p.Funcs[k], ts) {
+				seen[k] = true
+				us = append(us, Unit{Func: k})
+			}
+		}
+	}
 	sort.SliceStable(us, func(i, j int) bool { return us[i].Func < us[j].Func })
 	return us
+}
+
+// takesOwnedLock reports whether the method body calls recv.<mu>.Lock / RLock for a mutex of the type spec.
+func takesOwnedLock(fi *govc.FuncInfo, ts *govc.TypeSpec) bool {
+	if fi == nil || fi.Decl == nil || fi.Decl.Body == nil || fi.Decl.Recv == nil || len(fi.Decl.Recv.List) == 0 || len(fi.Decl.Recv.List[0].Names) == 0 {
+		return false
+	}
+	recv := fi.Decl.Recv.List[0].Names[0].Name
+	found := false
+	ast.Inspect(fi.Decl.Body, func(n ast.Node) bool {
+		call, ok := n.(*ast.CallExpr)
+		if !ok || found {
+			return !found
+		}
+		sel, ok := call.Fun.(*ast.SelectorExpr)
+		if !ok || (sel.Sel.Name != "Lock" && sel.Sel.Name != "RLock") {
+			return true
+		}
+		inner, ok := sel.X.(*ast.SelectorExpr)
+		if !ok {
+			return true
+		}
+		if id, ok := inner.X.(*ast.Ident); ok && id.Name == recv {
+			if _, owned := ts.Owns[inner.Sel.Name]; owned {
+				found = true
+			}
+		}
+		return true
+	})
+	return found
 }
 
 // Props is the table of properties with checks.
